@@ -162,7 +162,11 @@ pub fn dash_path(path: &Path, dash_array: &[f32], mut dash_offset: f32) -> Path 
 
                     if state.on {
                         if first_dash {
-                            // If we're still on the first dash we can just close
+                            // If we're still on the first dash the whole subpath is on:
+                            // emit what we buffered so far and close it
+                            for pt in &initial_segment {
+                                dashed.line_to(pt.x, pt.y);
+                            }
                             dashed.close();
                         } else {
                             if initial_segment.len() > 0 {
